@@ -983,6 +983,9 @@ func (l *Lexer) character() *token.Token {
 		if !ok {
 			return l.lexError(unterminatedCharLiteralMessage)
 		}
+		if ch == '\n' {
+			l.incrementLine()
+		}
 		lexemeBuff.WriteRune(ch)
 	}
 	if l.matchChar(charTerminator) {
@@ -1004,6 +1007,9 @@ func (l *Lexer) rawCharacter() *token.Token {
 	ch, ok := l.advanceChar()
 	if !ok {
 		return l.lexError(unterminatedCharLiteralMessage)
+	}
+	if ch == '\n' {
+		l.incrementLine()
 	}
 	char = string(ch)
 	if l.matchChar(charTerminator) {
